@@ -5,6 +5,12 @@
 package generic
 
 //@ global nonnil errNotFound
+// errNotFound is written once, by the package initialiser (checked), with errNode(meta.ErrNotFound, "", nil):
+//@ global fact errNotFound: errNotFound.t == thrift.ERROR
+
+// a string / binary / name path carries a length in l; integer-like paths carry any integer
+//@ pure pathok(t PathType, l int) bool = (t == PathStrKey || t == PathBinKey || t == PathFieldName) ==> 0 <= l && l < 1<<40
+//@ typeinv Path as x = pathok(x.t, x.l)
 
 // ffind: offset of the value of the first field with the given id in the field list starting at o, or -1
 //@ rec ffind(b []byte, o int, id thrift.FieldID) int = ite(o < 0 || o >= len(b), -1, ite(b[o] == 0, -1, \
@@ -15,9 +21,12 @@ package generic
 //@   props C01 C06 C04
 //@   ensures mono: old(p.Read) <= p.Read
 //@   ensures errtype: err != nil ==> dyntype(err, Node)
+//@   ensures range: 0 <= start && start <= p.Read
+//@   ensures errtt: err != nil ==> tt == 0 || tt == thrift.STRUCT
 //@   ensures found: err == nil ==> start == p.Read && 3 <= start && tt == thrift.Type(p.Buf[start-3]) && thrift.be16(p.Buf, start-2) == uint16(id)
 //@   ensures first: err == nil ==> start == ffind(p.Buf, old(p.Read), id)
 //@   ensures absent: err != nil && tt == thrift.STRUCT ==> ffind(p.Buf, old(p.Read), id) == -1
+//@   ensures absent_pos: err != nil && tt == thrift.STRUCT ==> start == old(p.Read)     // a missing field goes to the front of THIS struct
 //@   modifies p.Read
 //@   loop 1
 //@     invariant mono: old(p.Read) <= p.Read
@@ -33,9 +42,12 @@ package generic
 //@   props C01 C06 C04
 //@   ensures mono: old(p.Read) <= p.Read
 //@   ensures errtype: err != nil ==> dyntype(err, Node)
+//@   ensures range: 0 <= start && start <= p.Read
+//@   ensures errtt: err != nil ==> tt == 0 || tt == thrift.LIST || tt == thrift.SET
 //@   ensures found: err == nil ==> start == p.Read && tt == thrift.Type(p.Buf[old(p.Read)]) && id < int(int32(thrift.be32(p.Buf, old(p.Read)+1)))
 //@   ensures pos: err == nil && id >= 0 ==> start == eoff(p.Buf, old(p.Read)+5, tt, id)
 //@   ensures negative: id < 0 ==> err != nil
+//@   ensures absent_pos: err != nil && (tt == thrift.LIST || tt == thrift.SET) ==> start == old(p.Read) + 5 && start <= len(p.Buf)
 //@   modifies p.Read
 //@   loop 1
 //@     invariant mono: old(p.Read) + 5 <= p.Read
@@ -48,6 +60,9 @@ package generic
 //@   props C01 C06 C04
 //@   ensures mono: old(p.Read) <= p.Read
 //@   ensures errtype: err != nil ==> dyntype(err, Node)
+//@   ensures range: 0 <= start && start <= p.Read
+//@   ensures errtt: err != nil ==> tt == 0 || tt == thrift.MAP
+//@   ensures absent_pos: err != nil && tt == thrift.MAP ==> start == old(p.Read) + 6 && start <= len(p.Buf)
 //@   ensures found: err == nil ==> start == p.Read && tt == thrift.Type(p.Buf[old(p.Read)+1]) && thrift.Type(p.Buf[old(p.Read)]) == thrift.STRING
 //@   ensures key: err == nil ==> start >= old(p.Read) + 10 + len(id)
 //@   modifies p.Read
@@ -58,6 +73,9 @@ package generic
 //@   props C01 C06 C04
 //@   ensures mono: old(p.Read) <= p.Read
 //@   ensures errtype: err != nil ==> dyntype(err, Node)
+//@   ensures range: 0 <= start && start <= p.Read
+//@   ensures errtt: err != nil ==> tt == 0 || tt == thrift.MAP
+//@   ensures absent_pos: err != nil && tt == thrift.MAP ==> start == old(p.Read) + 6 && start <= len(p.Buf)
 //@   ensures found: err == nil ==> start == p.Read && tt == thrift.Type(p.Buf[old(p.Read)+1])
 //@   modifies p.Read
 //@   loop 1
@@ -72,6 +90,9 @@ package generic
 //@   props C01 C06 C04
 //@   ensures mono: old(p.Read) <= p.Read
 //@   ensures errtype: err != nil ==> dyntype(err, Node)
+//@   ensures range: 0 <= start && start <= p.Read
+//@   ensures errtt: err != nil ==> tt == 0 || tt == thrift.MAP
+//@   ensures absent_pos: err != nil && tt == thrift.MAP ==> start == old(p.Read) + 6 && start <= len(p.Buf)
 //@   ensures found: err == nil ==> start == p.Read && tt == thrift.Type(p.Buf[old(p.Read)+1])
 //@   ensures key: err == nil ==> ikey(p.Buf, start, thrift.Type(p.Buf[old(p.Read)])) == id
 //@   modifies p.Read
@@ -104,6 +125,9 @@ package generic
 //@   ensures inside: r0.t != thrift.ERROR && len(pathes) > 0 ==> samerg(r0.v, self.v) && offset(r0.v) >= offset(self.v) && \
 //@       offset(r0.v) + r0.l <= offset(self.v) + self.l && r0.l >= 0
 //@   ensures valid: windowif(r0.t != thrift.ERROR, r0.v, r0.l)
+//@   ensures nflast: r0.t == thrift.ERROR && r0.et == 1 ==> samerg(r0.v, self.v) && offset(r0.v) <= offset(self.v) + self.l && \
+//@       offset(r0.v) >= offset(self.v) + ite(r0.kt == thrift.MAP, 6, ite(r0.kt == thrift.LIST || r0.kt == thrift.SET, 5, 0))
+//@   ensures empty: len(pathes) == 0 ==> r0.t == self.t && r0.et == self.et && r0.kt == self.kt && same(r0.v, self.v) && r0.l == self.l
 //@   loop 1
 //@     invariant buf: samerg(p.Buf, self.v) && offset(p.Buf) == offset(self.v) && len(p.Buf) == self.l && self.t != thrift.ERROR
 //@     invariant cur: 0 <= p.Read && p.Read <= len(p.Buf) && 0 <= start && start <= p.Read
@@ -113,12 +137,17 @@ package generic
 // replace: self's buffer becomes  self[0:l0] ++ n ++ self[l0+o.l:]  in a NEW allocation, where o is a window
 // inside self starting at l0; the old buffer, o and n are left untouched.
 //@ pure l0of(self *Node, o Node) int = offset(o.v) - offset(self.v)
+// (no type invariants here: o and n need not carry cached element types — deleteChild and the "empty node" of
+// UnsetByPath do not — only their windows matter)
 //@ spec (*Node).replace
 //@   props C04 C12
+//@   notypeinv
+//@   requires win: self != nil && windowif(true, self.v, self.l) && windowif(true, n.v, n.l)
 //@   requires live: self.t != thrift.ERROR && n.t != thrift.ERROR && o.t != thrift.ERROR
 //@   requires inside: samerg(o.v, self.v) && offset(self.v) <= offset(o.v) && o.l >= 0 && o.l <= self.l && offset(o.v) + o.l <= offset(self.v) + self.l
 //@   ensures mismatch: o.t != n.t ==> r0 != nil && self.l == old(self.l) && offset(self.v) == old(offset(self.v)) && samerg(self.v, old(self.v))
 //@   ensures ok: o.t == n.t ==> r0 == nil && fresh(self.v) && self.l == old(self.l) - o.l + n.l
+//@   ensures valid: windowif(true, self.v, self.l) && self.t == old(self.t)
 //@   ensures head: o.t == n.t ==> forall i :: 0 <= i && i < old(l0of(self, o)) ==> byteat(self.v, i) == old(byteat(self.v, i))
 //@   ensures mid: o.t == n.t ==> forall i :: 0 <= i && i < n.l ==> byteat(self.v, old(l0of(self, o)) + i) == old(byteat(n.v, i))
 //@   ensures tail: o.t == n.t ==> forall i :: 0 <= i && i < old(self.l) - old(l0of(self, o)) - o.l ==> \
@@ -258,3 +287,93 @@ package generic
 //@   ensures span: old(it.Err) == nil && it.Err == nil ==> old(it.p.Read) <= start && start <= end && end == it.p.Read && end - start >= thrift.tmin(it.et) && it.i == old(it.i) + 1
 //@   ensures failed: old(it.Err) == nil && it.Err != nil ==> end == 0
 //@   modifies it.Err, it.p.Read, it.i
+
+// ---- edits (C04) -----------------------------------------------------------------------------------------
+// deleteChild: locates the child addressed by the LAST path element and returns its window (field header
+// included for a struct field; key and value for a map pair). For LIST/SET/MAP it decrements the element count
+// IN PLACE: the only bytes of the receiver's buffer it writes are the four count bytes of the container header.
+//@ spec (*Node).deleteChild
+//@   props C04 C06
+//@   requires live: self.t != thrift.ERROR
+//@   requires sep: !samerg(self, self.v)        // the Node header is not stored inside the buffer it describes
+//@   ensures inside: r0.t != thrift.ERROR ==> samerg(r0.v, self.v) && offset(r0.v) >= offset(self.v) && offset(r0.v) + r0.l <= offset(self.v) + self.l && r0.l >= 0
+//@   ensures valid: windowif(r0.t != thrift.ERROR, r0.v, r0.l)
+//@   ensures unchanged: r0.t == thrift.ERROR ==> forall i :: 0 <= i && i < self.l ==> byteat(self.v, i) == old(byteat(self.v, i))
+//@   ensures count: r0.t != thrift.ERROR && (self.t == thrift.LIST || self.t == thrift.SET) ==> \
+//@       thrift.be32(bytes(self.v, self.l), 1) == old(thrift.be32(bytes(self.v, self.l), 1)) - 1
+//@   ensures mcount: r0.t != thrift.ERROR && self.t == thrift.MAP ==> thrift.be32(bytes(self.v, self.l), 2) == old(thrift.be32(bytes(self.v, self.l), 2)) - 1
+//@   ensures strlen: self.t == thrift.MAP && path.t == PathStrKey && r0.t != thrift.ERROR ==> r0.l >= 4 + path.l
+//@   ensures strkey: self.t == thrift.MAP && path.t == PathStrKey && r0.t != thrift.ERROR ==> \
+//@       forall i :: 0 <= i && i < path.l ==> byteat(r0.v, 4 + i) == old(byteat(path.v, i))
+//@   modifies bytes(self.v, self.l)[1:5] if self.t == thrift.LIST || self.t == thrift.SET, bytes(self.v, self.l)[2:6] if self.t == thrift.MAP
+//@   loop 1
+//@     invariant buf: samerg(p.Buf, self.v) && offset(p.Buf) == offset(self.v) && len(p.Buf) == self.l && 6 <= p.Read && p.Read <= len(p.Buf) && 0 <= s && s <= e && e <= p.Read
+//@     decreases size - i
+//@   loop 2
+//@     invariant buf: samerg(p.Buf, self.v) && offset(p.Buf) == offset(self.v) && len(p.Buf) == self.l && 0 <= p.Read && p.Read <= len(p.Buf) && 0 <= s && s <= p.Read
+//@     decreases len(p.Buf) - p.Read
+//@   loop 3
+//@     invariant buf: samerg(p.Buf, self.v) && offset(p.Buf) == offset(self.v) && len(p.Buf) == self.l && 0 <= p.Read && p.Read <= len(p.Buf)
+//@     decreases id - i
+
+// UnsetByPath: on success the receiver owns a NEW buffer that is at most as long as the old one; on failure
+// (including "not found") the receiver still describes its old buffer.
+//@ spec (*Node).UnsetByPath
+//@   props C04 C06
+//@   requires live: self.t != thrift.ERROR
+//@   requires sep: !samerg(self, self.v)
+//@   requires meta: nmeta(self.t, self.et, self.kt, self.v, self.l)
+//@   requires paths: forall k :: 0 <= k && k < len(path) ==> pathok(path[k].t, path[k].l)
+//@   modifies *self
+//@   ensures ok: r0 == nil && len(path) > 0 && old(self.t) != thrift.ERROR ==> self.l <= old(self.l) && self.l >= 0
+//@   ensures fail: r0 != nil ==> self.l == old(self.l) && samerg(self.v, old(self.v)) && offset(self.v) == old(offset(self.v))
+//@   ensures valid: windowif(self.t != thrift.ERROR, self.v, self.l)
+
+// setNotFound: o is the "not found, last" marker returned by GetByPath (o.kt = kind of the parent container,
+// o.v = insertion point inside the parent's buffer); n is the value to insert. STRUCT: n becomes field header ++
+// value in fresh memory. LIST/SET: the parent's count (the 4 bytes before o.v) is incremented in place. MAP: both.
+// Afterwards o stands for an empty window of n's type at the insertion point, ready for replace.
+//@ spec (*Node).setNotFound
+//@   props C04 C06
+//@   notypeinv
+//@   requires ptrs: o != nil && n != nil && !samerg(o, n) && !samerg(o, o.v) && !samerg(n, o.v) && !samerg(n, n.v) && !samerg(o, n.v)
+//@   requires nwin: n.t != thrift.ERROR && windowif(true, n.v, n.l) && pathok(path.t, path.l)
+//@   requires apart: disjoint(bytes(ptradd(o.v, -4), 4), bytes(n.v, n.l)) && disjoint(bytes(ptradd(o.v, -4), 4), bytes(path.v, path.l))   // the count being incremented is not part of the inserted value or key
+//@   requires hdr: windowif(o.kt == thrift.LIST || o.kt == thrift.SET, ptradd(o.v, -4), 4) && windowif(o.kt == thrift.MAP, ptradd(o.v, -6), 6)
+//@   ensures okk: (o.kt == thrift.STRUCT || o.kt == thrift.LIST || o.kt == thrift.SET || o.kt == thrift.MAP) ==> r0 == nil && o.t == n.t && o.l == 0
+//@   ensures bad: !(o.kt == thrift.STRUCT || o.kt == thrift.LIST || o.kt == thrift.SET || o.kt == thrift.MAP) ==> r0 != nil && o.t == old(o.t) && o.l == old(o.l) && n.l == old(n.l)
+//@   ensures field: o.kt == thrift.STRUCT && path.t == PathFieldId ==> fresh(n.v) && n.l == old(n.l) + 3 && byteat(n.v, 0) == byte(n.t) && \
+//@       thrift.be16(bytes(n.v, n.l), 1) == uint16(path.l)
+//@   ensures fieldval: o.kt == thrift.STRUCT && path.t == PathFieldId ==> forall i :: 0 <= i && i < old(n.l) ==> byteat(n.v, 3 + i) == old(byteat(n.v, i))
+//@   ensures count: o.kt == thrift.LIST || o.kt == thrift.SET || o.kt == thrift.MAP ==> \
+//@       thrift.be32(bytes(ptradd(o.v, -4), 4), 0) == old(thrift.be32(bytes(ptradd(o.v, -4), 4), 0)) + 1
+//@   ensures elem: o.kt == thrift.LIST || o.kt == thrift.SET ==> n.l == old(n.l) && same(n.v, old(n.v))
+//@   ensures mapstr: o.kt == thrift.MAP && path.t == PathStrKey ==> fresh(n.v) && n.l == old(n.l) + 4 + path.l && thrift.be32(bytes(n.v, n.l), 0) == uint32(path.l)
+//@   ensures mapstrkey: o.kt == thrift.MAP && path.t == PathStrKey ==> forall i :: 0 <= i && i < path.l ==> byteat(n.v, 4 + i) == old(byteat(path.v, i))
+//@   ensures mapstrval: o.kt == thrift.MAP && path.t == PathStrKey ==> forall i :: 0 <= i && i < old(n.l) ==> byteat(n.v, 4 + path.l + i) == old(byteat(n.v, i))
+//@   ensures mapi32: o.kt == thrift.MAP && path.t == PathIntKey && old(byteat(o.v, -6)) == byte(thrift.I32) ==> fresh(n.v) && n.l == old(n.l) + 4 && \
+//@       thrift.be32(bytes(n.v, n.l), 0) == uint32(path.l)
+//@   ensures mapi64: o.kt == thrift.MAP && path.t == PathIntKey && old(byteat(o.v, -6)) == byte(thrift.I64) ==> fresh(n.v) && n.l == old(n.l) + 8 && \
+//@       thrift.be64(bytes(n.v, n.l), 0) == uint64(path.l)
+//@   ensures mapi16: o.kt == thrift.MAP && path.t == PathIntKey && old(byteat(o.v, -6)) == byte(thrift.I16) ==> fresh(n.v) && n.l == old(n.l) + 2 && \
+//@       thrift.be16(bytes(n.v, n.l), 0) == uint16(path.l)
+//@   ensures mapi08: o.kt == thrift.MAP && path.t == PathIntKey && old(byteat(o.v, -6)) == byte(thrift.I08) ==> fresh(n.v) && n.l == old(n.l) + 1 && \
+//@       byteat(n.v, 0) == byte(path.l)
+//@   ensures nvalid: windowif(true, n.v, n.l) && n.t == old(n.t)
+//@   modifies o.t, o.l, n.l, n.v, bytes(ptradd(o.v, -4), 4)[0:4] if o.kt == thrift.LIST || o.kt == thrift.SET || o.kt == thrift.MAP
+
+// SetByPath: an existing element is replaced through replace() — the type check is never skipped, the result
+// lives in a NEW buffer and the old buffer is left untouched; a missing last element is inserted (setNotFound +
+// replace). On any error the receiver still describes its old buffer.
+//@ spec (*Node).SetByPath
+//@   props C04 C06
+//@   requires live: self.t != thrift.ERROR
+//@   requires sep: !samerg(self, self.v) && !samerg(sub.v, self.v) && !samerg(self, sub.v)
+//@   requires meta: nmeta(self.t, self.et, self.kt, self.v, self.l)
+//@   requires paths: forall k :: 0 <= k && k < len(path) ==> pathok(path[k].t, path[k].l) && !samerg(path[k].v, self.v)
+//@   ensures root: len(path) == 0 ==> exist && err == nil
+//@   ensures okk: err == nil && len(path) > 0 ==> fresh(self.v) && self.l >= 0
+//@   ensures existed: exist && len(path) > 0 ==> forall i :: 0 <= i && i < old(self.l) ==> byteat(old(self.v), i) == old(byteat(self.v, i))
+//@   ensures fail: err != nil ==> self.l == old(self.l) && samerg(self.v, old(self.v)) && offset(self.v) == old(offset(self.v))
+//@   ensures valid: windowif(self.t != thrift.ERROR, self.v, self.l)
+//@   modifies *self, bytes(self.v, self.l)
